@@ -97,6 +97,8 @@ structure DState where
   tail : Torn := .clean
   /-- the model has given up on this history (a write after a torn, unaligned tail) -/
   unmodelled : Bool := false
+  /-- items of a foreign archive announced by `item` lines, consumed by `@foreign` -/
+  items : Tape := []
 deriving Inhabited
 
 def kvs (fields : List String) : List (String × String) :=
@@ -297,6 +299,18 @@ def step (s : DState) (line : String) : DState × List String :=
   | "cfg" :: fields => ({ s with fs := parseCfg fields }, [])
   | "hist" :: id :: _ => ({ (default : DState) with fs := s.fs }, ["hist\t" ++ id])
   | "env" :: fields => ({ s with env := parseEnv fields }, [])
+  | "item" :: "trl" :: _ => ({ s with items := s.items ++ [.trailer] }, [])
+  | "item" :: "rec" :: f =>
+    -- hb stored typeflag name linkname size mode uid gid uname gname mtime atime ctime len seed
+    let h : Hdr := { typeflag := natArg f 2, name := nameArg f 3, linkname := nameArg f 4, size := intArg f 5,
+                     attrs := { mode := intArg f 6, uid := intArg f 7, gid := intArg f 8, uname := nameArg f 9, gname := nameArg f 10,
+                                mtime := intArg f 11, atime := intArg f 12, ctime := intArg f 13 } }
+    ({ s with items := s.items ++ [.recd h (natArg f 0) (natArg f 1) (genBytes (natArg f 14) (natArg f 15))] }, [])
+  | "call" :: "@foreign" :: args =>
+    -- the drive is replaced by an archive written by a standard tar writer; no index, new process
+    let s' := { s with w := { tape := s.items, idx := {}, stuck := false }, handles := [], refHandles := [], items := [],
+                       tail := .clean, unmodelled := false }
+    (s', ["call\t@foreign\t" ++ "\t".intercalate args, "res\tok"] ++ observe s'.w s' ++ ["refres\t-"] ++ encTree s'.ref ++ ["end"])
   | "call" :: "@rebuildcut" :: c :: _ =>
     -- a from-scratch rebuild of the current tape cut at byte c (the running instance is untouched)
     let (idx, e) := rebuildCut s.fs.c s.w.tape (c.toNat?.getD 0)
